@@ -23,6 +23,11 @@
 (*                      (r = 1); JoinRet(j) start() returned;              *)
 (*  JoinDone(j)         the join receiver completed                        *)
 (*  ReqStopBegin/End    request_stop() on the scope                        *)
+(*  RStopBegin/End(w)   request_stop() on the stop source behind w's       *)
+(*                      receiver                                           *)
+(*  FutDone(f, r)       the receiver of the started future f completed     *)
+(*  FutDrop(f, r)       the unconsumed future f is about to be destroyed   *)
+(*                      (r = its operation's item: that is asked to stop)  *)
 (*  Quiescent           every driver thread has finished its program       *)
 (***************************************************************************)
 EXTENDS Naturals, Sequences, FiniteSets, TLC, TraceIO
@@ -37,15 +42,18 @@ VARIABLES l,
           closeBegun, \* some join()/complete()/cleanup()/request_stop() has begun
           jBegun, jDone, jStop,  \* jStop: cleanup whose embedded request_stop has not been seen to return
           anyJoinDone,
-          stopBegun, stopOpen, delivered,  \* delivered: some request_stop has returned while no other was in flight
+          stopBegun, stopOpen, delivered,  \* delivered: some scope request_stop()/cleanup() stop part has returned
+          rOpen, rEnded,  \* [Items -> ..] receiver-side request_stop() in flight / has returned
+          perm,           \* [Items -> BOOLEAN] a stop request aimed at this item alone has begun (receiver's source, dropped future)
           quiescent
-vars == <<l, adm, mustAdm, mustRef, closeEnded, started, fin, closeBegun, jBegun, jDone, jStop, anyJoinDone, stopBegun, stopOpen, delivered, quiescent>>
+vars == <<l, adm, mustAdm, mustRef, closeEnded, started, fin, closeBegun, jBegun, jDone, jStop, anyJoinDone, stopBegun, stopOpen, delivered, rOpen, rEnded, perm, quiescent>>
 Fresh == /\ adm = [w \in Items |-> 9] /\ mustAdm = [w \in Items |-> FALSE]
          /\ mustRef = [w \in Items |-> FALSE] /\ closeEnded = FALSE
          /\ started = [w \in Items |-> FALSE] /\ fin = [w \in Items |-> FALSE]
          /\ closeBegun = FALSE /\ jBegun = [j \in Jns |-> FALSE] /\ jDone = [j \in Jns |-> FALSE]
          /\ jStop = [j \in Jns |-> FALSE] /\ anyJoinDone = FALSE
          /\ stopBegun = FALSE /\ stopOpen = 0 /\ delivered = FALSE
+         /\ rOpen = [w \in Items |-> 0] /\ rEnded = [w \in Items |-> FALSE] /\ perm = [w \in Items |-> FALSE]
 Init == l = 1 /\ Fresh /\ quiescent = TRUE /\ TrackInit
 E == Log[l]
 Is(e) == l <= Len(Log) /\ E.e = e /\ l' = l + 1
@@ -58,73 +66,88 @@ Reset == /\ Is("Reset") /\ quiescent
          /\ closeBegun' = FALSE /\ jBegun' = [j \in Jns |-> FALSE] /\ jDone' = [j \in Jns |-> FALSE]
          /\ jStop' = [j \in Jns |-> FALSE] /\ anyJoinDone' = FALSE
          /\ stopBegun' = FALSE /\ stopOpen' = 0 /\ delivered' = FALSE /\ quiescent' = FALSE
+         /\ rOpen' = [w \in Items |-> 0] /\ rEnded' = [w \in Items |-> FALSE] /\ perm' = [w \in Items |-> FALSE]
 NestBegin == /\ Is("NestBegin") /\ adm[E.w] = 9
              /\ adm' = [adm EXCEPT ![E.w] = 3] /\ mustRef' = [mustRef EXCEPT ![E.w] = closeEnded]
-             /\ UNCHANGED <<closeEnded, mustAdm, started, fin, closeBegun, jBegun, jDone, jStop, anyJoinDone, stopBegun, stopOpen, delivered, quiescent>>
+             /\ UNCHANGED <<rOpen, rEnded, perm, closeEnded, mustAdm, started, fin, closeBegun, jBegun, jDone, jStop, anyJoinDone, stopBegun, stopOpen, delivered, quiescent>>
 NestEnd == /\ Is("NestEnd") /\ adm[E.w] = 3 /\ E.r \in {0, 1, 2}
            /\ (E.r = 1) => ~anyJoinDone          \* admitted work outstanding although a join has already completed
            /\ (E.r = 1) => ~mustRef[E.w]         \* work nested after the scope was closed is refused
            /\ (E.r = 0) => (closeBegun /\ ~started[E.w])   \* refused only if the scope was being closed; refused work never starts
            /\ adm' = [adm EXCEPT ![E.w] = IF started[E.w] THEN 1 ELSE E.r]
            /\ mustAdm' = [mustAdm EXCEPT ![E.w] = ~closeBegun]
-           /\ UNCHANGED <<mustRef, closeEnded, started, fin, closeBegun, jBegun, jDone, jStop, anyJoinDone, stopBegun, stopOpen, delivered, quiescent>>
+           /\ UNCHANGED <<rOpen, rEnded, perm, mustRef, closeEnded, started, fin, closeBegun, jBegun, jDone, jStop, anyJoinDone, stopBegun, stopOpen, delivered, quiescent>>
 LeafStart == /\ Is("LeafStart") /\ adm[E.w] \in {1, 2, 3} /\ ~started[E.w] /\ ~fin[E.w]
              /\ ~anyJoinDone                      \* the scope's work starts although a join has already completed
              /\ ~mustRef[E.w]                     \* work nested after the scope was closed never starts
              /\ started' = [started EXCEPT ![E.w] = TRUE]
              /\ adm' = [adm EXCEPT ![E.w] = IF @ = 2 THEN 1 ELSE @]
-             /\ UNCHANGED <<mustRef, closeEnded, mustAdm, fin, closeBegun, jBegun, jDone, jStop, anyJoinDone, stopBegun, stopOpen, delivered, quiescent>>
+             /\ UNCHANGED <<rOpen, rEnded, perm, mustRef, closeEnded, mustAdm, fin, closeBegun, jBegun, jDone, jStop, anyJoinDone, stopBegun, stopOpen, delivered, quiescent>>
 WorkDone == /\ Is("WorkDone") /\ ~fin[E.w] /\ adm[E.w] \in {0, 1, 2, 3}
             /\ ~started[E.w] => /\ E.r = 1                      \* never-started work completes with done
                                 /\ adm[E.w] \in {0, 2}           \* admitted work is started by start()
                                 /\ (adm[E.w] = 2 => ~mustAdm[E.w])
             /\ fin' = [fin EXCEPT ![E.w] = TRUE]
             /\ adm' = [adm EXCEPT ![E.w] = IF ~started[E.w] THEN 0 ELSE @]
-            /\ UNCHANGED <<mustRef, closeEnded, mustAdm, started, closeBegun, jBegun, jDone, jStop, anyJoinDone, stopBegun, stopOpen, delivered, quiescent>>
+            /\ UNCHANGED <<rOpen, rEnded, perm, mustRef, closeEnded, mustAdm, started, closeBegun, jBegun, jDone, jStop, anyJoinDone, stopBegun, stopOpen, delivered, quiescent>>
 Discard == /\ Is("Discard") /\ adm[E.w] \in {0, 1} /\ ~started[E.w] /\ ~fin[E.w]
            /\ fin' = [fin EXCEPT ![E.w] = TRUE]
-           /\ UNCHANGED <<mustRef, closeEnded, adm, mustAdm, started, closeBegun, jBegun, jDone, jStop, anyJoinDone, stopBegun, stopOpen, delivered, quiescent>>
+           /\ UNCHANGED <<rOpen, rEnded, perm, mustRef, closeEnded, adm, mustAdm, started, closeBegun, jBegun, jDone, jStop, anyJoinDone, stopBegun, stopOpen, delivered, quiescent>>
 JoinBegin == /\ Is("JoinBegin") /\ ~jBegun[E.j]
              /\ jBegun' = [jBegun EXCEPT ![E.j] = TRUE] /\ closeBegun' = TRUE
              /\ jStop' = [jStop EXCEPT ![E.j] = (E.r = 1)]
              /\ stopOpen' = IF E.r = 1 THEN stopOpen + 1 ELSE stopOpen
              /\ stopBegun' = (stopBegun \/ E.r = 1)
-             /\ UNCHANGED <<mustRef, closeEnded, adm, mustAdm, started, fin, jDone, anyJoinDone, delivered, quiescent>>
+             /\ UNCHANGED <<rOpen, rEnded, perm, mustRef, closeEnded, adm, mustAdm, started, fin, jDone, anyJoinDone, delivered, quiescent>>
 \* a cleanup()'s embedded request_stop() has returned once its start() returned or its receiver completed
 StopPartEnds(j) == /\ jStop' = [jStop EXCEPT ![j] = FALSE]
                    /\ stopOpen' = IF jStop[j] THEN stopOpen - 1 ELSE stopOpen
-                   /\ delivered' = (delivered \/ (jStop[j] /\ stopOpen = 1))
+                   /\ delivered' = (delivered \/ jStop[j])
 JoinRet == /\ Is("JoinRet") /\ jBegun[E.j] /\ StopPartEnds(E.j) /\ closeEnded' = TRUE
-           /\ UNCHANGED <<mustRef, adm, mustAdm, started, fin, closeBegun, jBegun, jDone, anyJoinDone, stopBegun, quiescent>>
+           /\ UNCHANGED <<rOpen, rEnded, perm, mustRef, adm, mustAdm, started, fin, closeBegun, jBegun, jDone, anyJoinDone, stopBegun, quiescent>>
 JoinDone == /\ Is("JoinDone") /\ jBegun[E.j] /\ ~jDone[E.j]         \* only a started join, once
             /\ \A w \in Items : ~Outstanding(w)                      \* only after all admitted work has finished
             /\ jDone' = [jDone EXCEPT ![E.j] = TRUE] /\ anyJoinDone' = TRUE
             /\ StopPartEnds(E.j) /\ closeEnded' = TRUE
-            /\ UNCHANGED <<mustRef, adm, mustAdm, started, fin, closeBegun, jBegun, stopBegun, quiescent>>
+            /\ UNCHANGED <<rOpen, rEnded, perm, mustRef, adm, mustAdm, started, fin, closeBegun, jBegun, stopBegun, quiescent>>
 ReqStopBegin == /\ Is("ReqStopBegin")
                 /\ stopOpen' = stopOpen + 1 /\ stopBegun' = TRUE /\ closeBegun' = TRUE
-                /\ UNCHANGED <<mustRef, closeEnded, adm, mustAdm, started, fin, jBegun, jDone, jStop, anyJoinDone, delivered, quiescent>>
+                /\ UNCHANGED <<rOpen, rEnded, perm, mustRef, closeEnded, adm, mustAdm, started, fin, jBegun, jDone, jStop, anyJoinDone, delivered, quiescent>>
 ReqStopEnd == /\ Is("ReqStopEnd") /\ stopOpen > 0
-              /\ stopOpen' = stopOpen - 1 /\ delivered' = (delivered \/ stopOpen = 1) /\ closeEnded' = TRUE
-              /\ UNCHANGED <<mustRef, adm, mustAdm, started, fin, closeBegun, jBegun, jDone, jStop, anyJoinDone, stopBegun, quiescent>>
-StopSeen == /\ Is("StopSeen") /\ stopBegun                            \* nobody else requests stop
-            /\ UNCHANGED <<mustRef, closeEnded, adm, mustAdm, started, fin, closeBegun, jBegun, jDone, jStop, anyJoinDone, stopBegun, stopOpen, delivered, quiescent>>
-\* outstanding work sees the stop request: once a request_stop()/cleanup() has fully returned, a leaf that is still
-\* running has observed it
+              /\ stopOpen' = stopOpen - 1 /\ delivered' = TRUE /\ closeEnded' = TRUE
+              /\ UNCHANGED <<rOpen, rEnded, perm, mustRef, adm, mustAdm, started, fin, closeBegun, jBegun, jDone, jStop, anyJoinDone, stopBegun, quiescent>>
+StopSeen == /\ Is("StopSeen") /\ (stopBegun \/ perm[E.w])               \* nobody else requests stop
+            /\ UNCHANGED <<rOpen, rEnded, perm, mustRef, closeEnded, adm, mustAdm, started, fin, closeBegun, jBegun, jDone, jStop, anyJoinDone, stopBegun, stopOpen, delivered, quiescent>>
+\* outstanding work sees the stop request: once some stop request relevant to the item (scope request_stop()/cleanup(),
+\* or its receiver's stop source) has returned and none is in flight, a leaf that is still running has observed it
 LeafFinish == /\ Is("LeafFinish") /\ started[E.w] /\ ~fin[E.w]
-              /\ delivered => E.r = 1
-              /\ UNCHANGED <<mustRef, closeEnded, adm, mustAdm, started, fin, closeBegun, jBegun, jDone, jStop, anyJoinDone, stopBegun, stopOpen, delivered, quiescent>>
+              /\ ((delivered \/ rEnded[E.w]) /\ stopOpen = 0 /\ rOpen[E.w] = 0) => E.r = 1
+              /\ UNCHANGED <<rOpen, rEnded, perm, mustRef, closeEnded, adm, mustAdm, started, fin, closeBegun, jBegun, jDone, jStop, anyJoinDone, stopBegun, stopOpen, delivered, quiescent>>
+RStopBegin == /\ Is("RStopBegin")
+              /\ rOpen' = [rOpen EXCEPT ![E.w] = @ + 1] /\ perm' = [perm EXCEPT ![E.w] = TRUE]
+              /\ UNCHANGED <<rEnded, mustRef, closeEnded, adm, mustAdm, started, fin, closeBegun, jBegun, jDone, jStop, anyJoinDone, stopBegun, stopOpen, delivered, quiescent>>
+RStopEnd == /\ Is("RStopEnd") /\ rOpen[E.w] > 0
+            /\ rOpen' = [rOpen EXCEPT ![E.w] = @ - 1] /\ rEnded' = [rEnded EXCEPT ![E.w] = TRUE]
+            /\ UNCHANGED <<perm, mustRef, closeEnded, adm, mustAdm, started, fin, closeBegun, jBegun, jDone, jStop, anyJoinDone, stopBegun, stopOpen, delivered, quiescent>>
+\* a future is a nest sender of the scope: consuming it (FutDone) or dropping it (FutDrop) finishes the item
+FutDone == /\ Is("FutDone") /\ adm[E.w] \in {0, 1, 2} /\ ~fin[E.w]
+           /\ (adm[E.w] = 0) => E.r = 1                       \* a refused future completes with done
+           /\ fin' = [fin EXCEPT ![E.w] = TRUE]
+           /\ UNCHANGED <<rOpen, rEnded, perm, mustRef, closeEnded, adm, mustAdm, started, closeBegun, jBegun, jDone, jStop, anyJoinDone, stopBegun, stopOpen, delivered, quiescent>>
+FutDrop == /\ Is("FutDrop") /\ adm[E.w] \in {0, 1, 2} /\ ~fin[E.w]
+           /\ fin' = [fin EXCEPT ![E.w] = TRUE] /\ perm' = [perm EXCEPT ![E.r] = TRUE]
+           /\ UNCHANGED <<rOpen, rEnded, mustRef, closeEnded, adm, mustAdm, started, closeBegun, jBegun, jDone, jStop, anyJoinDone, stopBegun, stopOpen, delivered, quiescent>>
 Skip == /\ l <= Len(Log) /\ E.e \in {"StartBegin", "ScopeFreed"} /\ l' = l + 1
-        /\ UNCHANGED <<mustRef, closeEnded, adm, mustAdm, started, fin, closeBegun, jBegun, jDone, jStop, anyJoinDone, stopBegun, stopOpen, delivered, quiescent>>
+        /\ UNCHANGED <<rOpen, rEnded, perm, mustRef, closeEnded, adm, mustAdm, started, fin, closeBegun, jBegun, jDone, jStop, anyJoinDone, stopBegun, stopOpen, delivered, quiescent>>
 \* end of the execution: no call in flight; if all admitted work is finished every started join has completed
 Quiescent == /\ Is("Quiescent") /\ ~quiescent
              /\ \A w \in Items : adm[w] # 3
-             /\ stopOpen = 0
-             /\ (\A w \in Items : ~Outstanding(w) /\ adm[w] # 2) => \A j \in Jns : jBegun[j] => jDone[j]
+             /\ stopOpen = 0 /\ \A w \in Items : rOpen[w] = 0
+             /\ (\A w \in Items : ~Outstanding(w) /\ (adm[w] = 2 => fin[w])) => \A j \in Jns : jBegun[j] => jDone[j]
              /\ quiescent' = TRUE
-             /\ UNCHANGED <<mustRef, closeEnded, adm, mustAdm, started, fin, closeBegun, jBegun, jDone, jStop, anyJoinDone, stopBegun, stopOpen, delivered>>
+             /\ UNCHANGED <<rOpen, rEnded, perm, mustRef, closeEnded, adm, mustAdm, started, fin, closeBegun, jBegun, jDone, jStop, anyJoinDone, stopBegun, stopOpen, delivered>>
 Next == Reset \/ NestBegin \/ NestEnd \/ LeafStart \/ WorkDone \/ Discard \/ JoinBegin \/ JoinRet \/ JoinDone
-        \/ ReqStopBegin \/ ReqStopEnd \/ StopSeen \/ LeafFinish \/ Skip \/ Quiescent
+        \/ ReqStopBegin \/ ReqStopEnd \/ RStopBegin \/ RStopEnd \/ FutDone \/ FutDrop \/ StopSeen \/ LeafFinish \/ Skip \/ Quiescent
 Spec == Init /\ [][Next]_vars
 Track == TrackAt(l, quiescent)
 Report == ReportTrace
